@@ -27,7 +27,7 @@ impl WordShape {
         self.fin
     }
 }
-// @item rust/core/src/tokenization/word.rs :: defaults Word as WordShape::{len}
+// @item rust/core/src/tokenization/word.rs :: defaults Word as WordShape::{len,is_empty,is_function}
 impl WordShape {
     fn len(&self) -> (ret: usize)
         requires self.slice.0 <= self.slice.1,
@@ -35,6 +35,21 @@ impl WordShape {
     {
         let (left, right) = self.slice();
         right - left
+    }
+    fn is_empty(&self) -> (ret: bool)
+    {
+        let (left, right) = self.slice();
+        right == left
+    }
+    fn is_function(&self) -> (ret: bool)
+    {
+        match self.pos() {
+            Some(PartOfSpeech::Article) => true,
+            Some(PartOfSpeech::Preposition) => true,
+            Some(PartOfSpeech::Conjunction) => true,
+            Some(PartOfSpeech::Particle) => true,
+            _ => false,
+        }
     }
 }
 // @item rust/core/src/tokenization/text.rs :: impl TextOwn::{to_ref}
